@@ -10,7 +10,7 @@ func init() {
 			"ha.NewInMemorySessionStore", "ha.InMemorySessionStore.PutSession", "ha.InMemorySessionStore.DeleteSession",
 			"ha.InMemorySessionStore.GetSession", "ha.InMemorySessionStore.GetSessionCount", "ha.InMemorySessionStore.GetAllSessions",
 			// standby side
-						"ha.DecodeSyncMessage", "ha.HASyncer.performFullSync", "ha.HASyncer.handleSSEData", "ha.HASyncer.applyFullSync",
+			"ha.DecodeSyncMessage", "ha.HASyncer.performFullSync", "ha.HASyncer.handleSSEData", "ha.HASyncer.applyFullSync",
 			// active side
 			"ha.HASyncer.PushChange", "ha.HASyncer.handleGetSessions",
 		},
@@ -20,7 +20,7 @@ func init() {
 				Bound: "a connected standby whose writer is stalled while the active pushes 1, 50, 99, 100, 101, 150, 400 changes",
 				Claim: "every accepted change is queued for the standby in push order, or the standby's stream has been ended so that it resynchronises -- never a silent hole"},
 			{ID: "ha.end_to_end", Pkg: "github.com/codelaboratoryltd/bng/pkg/ha", File: "ha_end_to_end.go",
-				Bound: "active and standby over loopback HTTP (full-sync GET + SSE stream); three seeded histories of adds / updates / deletes over 40 session ids: 200 changes, 300 with all connections cut twice, 300 pushed in one burst",
+				Bound: "active and standby over loopback HTTP (full-sync GET + SSE stream); four seeded histories of adds / updates / deletes over 40 session ids: 200 changes, 300 with all connections cut twice (ten changes pushed while disconnected each time), 300 pushed in one burst, 200 over a half-dead link (a TCP relay drops the standby's side of the stream at once and the active's side 1.5 s later, changes flowing for 3 s); no change is pushed during the few milliseconds between a reconnecting standby's full-sync GET and the registration of its new stream (healed in production by the next change or the periodic full sync, which is switched off here)",
 				Claim: "within 10 s after the active goes quiet the standby's table equals the active's store (ids, IP, State)"},
 		},
 		Undecided: []string{
